@@ -42,6 +42,11 @@ pub enum Action {
     Retag { b: usize, tag: u8 },
     /// transfer_to_new_account (same authority keeps control; new account key is derived)
     Transfer { u: usize },
+    /// transfer through the PDA flavour of the instruction
+    TransferPda { u: usize },
+    /// `base` with the given vault of the given bank replaced, in every account list, by a token
+    /// account of the same mint that belongs to user 1 (an adversarial but well-typed account list)
+    WithVaultSwap { base: Box<Action>, bank: usize, kind: u8 },
     CloseAccount { u: usize },
     /// close the user's *original* account (after a transfer it is the migrated-away, disabled one)
     CloseOriginal { u: usize },
@@ -96,6 +101,15 @@ pub fn cur_account(w: &World, s: &Store, u: usize) -> Pubkey {
 
 pub fn next_account_key(old: &Pubkey) -> Pubkey {
     world::key(&format!("migrated:{}", old))
+}
+
+/// index used for PDA transfers of this old account (distinct per source so that chains work)
+pub fn pda_index_for(old: &Pubkey) -> u16 {
+    u16::from_le_bytes([old.to_bytes()[0], old.to_bytes()[1]]) | 1
+}
+
+pub fn next_account_key_pda(w: &World, old: &Pubkey, new_authority: &Pubkey) -> Pubkey {
+    ix::account_pda(&w.group, new_authority, pda_index_for(old), None)
 }
 
 fn with_mint(w: &World, b: usize, mut rest: Vec<AccountMeta>) -> Vec<AccountMeta> {
@@ -179,6 +193,26 @@ pub fn user_ix(w: &World, s: &Store, a: &Action, signer: Pubkey) -> Option<Ix> {
             let old = acct(*u);
             ix::transfer_to_new_account(g, old, next_account_key(&old), signer, w.payer, w.users[*u].authority, w.fee_wallet)
         }
+        Action::TransferPda { u } => {
+            let old = acct(*u);
+            ix::transfer_to_new_account_pda(g, old, signer, w.payer, w.users[*u].authority, w.fee_wallet, pda_index_for(&old), None).1
+        }
+        Action::WithVaultSwap { base, bank, kind } => {
+            let mut i = user_ix(w, s, base, signer)?;
+            let bh = &w.banks[*bank];
+            let from = match kind {
+                0 => bh.lv,
+                1 => bh.iv,
+                _ => bh.fv,
+            };
+            let to = w.users[1].tokens[&bh.mint];
+            for m in i.accounts.iter_mut() {
+                if m.pubkey == from {
+                    m.pubkey = to;
+                }
+            }
+            i
+        }
         Action::CloseAccount { u } => ix::account_close(acct(*u), signer, w.payer),
         Action::CloseOriginal { u } => ix::account_close(w.users[*u].account, signer, w.payer),
         Action::CloseBank { b } => ix::close_bank(g, w.banks[*b].key, signer),
@@ -191,6 +225,8 @@ pub fn user_ix(w: &World, s: &Store, a: &Action, signer: Pubkey) -> Option<Ix> {
 pub fn extra_signers(w: &World, s: &Store, a: &Action) -> Vec<Pubkey> {
     match a {
         Action::Transfer { u } => vec![w.payer, next_account_key(&cur_account(w, s, *u))],
+        Action::TransferPda { .. } => vec![w.payer],
+        Action::WithVaultSwap { base, .. } => extra_signers(w, s, base),
         Action::CloseAccount { .. } | Action::CloseOriginal { .. } => vec![w.payer],
         _ => vec![],
     }
@@ -205,7 +241,8 @@ pub fn default_signer(w: &World, a: &Action) -> Option<Pubkey> {
         Action::Bankruptcy { signer, u, .. } => signer_key(w, signer, Some(*u)),
         Action::Accrue { .. } | Action::CollectFees { .. } => w.payer,
         Action::TokenlessRepay { .. } | Action::Purge { .. } | Action::ForceTokenlessComplete { .. } => w.roles.risk,
-        Action::Transfer { u } | Action::CloseAccount { u } | Action::CloseOriginal { u } => w.users[*u].authority,
+        Action::Transfer { u } | Action::TransferPda { u } | Action::CloseAccount { u } | Action::CloseOriginal { u } => w.users[*u].authority,
+        Action::WithVaultSwap { base, .. } => return default_signer(w, base),
         Action::CloseBank { .. } | Action::Freeze { .. } | Action::Retag { .. } => w.roles.admin,
         _ => return None,
     })
